@@ -10,6 +10,12 @@ let rec int_of_pos (p : positive) : int =
   match p with XH -> 1 | XO q -> 2 * int_of_pos q | XI q -> 2 * int_of_pos q + 1
 let int_of_n (x : n) : int = match x with N0 -> 0 | Npos p -> int_of_pos p
 
+(* Z <-> decimal strings (values below 2^62) *)
+let z_of_string (s : Stdlib.String.t) : z =
+  let i = int_of_string s in if i = 0 then Z0 else if i > 0 then Zpos (pos_of_int i) else Zneg (pos_of_int (- i))
+let string_of_z (x : z) : Stdlib.String.t =
+  match x with Z0 -> "0" | Zpos p -> string_of_int (int_of_pos p) | Zneg p -> "-" ^ string_of_int (int_of_pos p)
+
 let unhex (s : Stdlib.String.t) : n list =
   if s = "-" then [] else begin
     let l = String.length s / 2 in
@@ -177,6 +183,10 @@ let dispatch (f : Stdlib.String.t list) : Stdlib.String.t =
   | ["b64.dec"; i] -> (match b64dec (unhex i) with Some o -> "ok\t" ^ hex o | None -> "err")
   | ["utf8.valid"; i] -> b01 (utf8_valid (unhex i))
   | ["split_ws"; i] -> hexlist (split_ws (unhex i))
+  | ["date.display"; secs] ->
+    (match of_secs (z_of_string secs) with Some d -> "some\t" ^ hex (date_display d) | None -> "PANIC")
+  | ["date.parse"; b] ->
+    (match date_parse (unhex b) with Some d -> Printf.sprintf "some\t%s\t%s" (string_of_z (to_secs d)) (hex (date_display d)) | None -> "none")
   | ["xtext"; i] -> hex (xtext (unhex i))
   | ["auth.response"; m; u; p; c] ->
       (match mech_response (mech_of_char m.[0]) (unhex u) (unhex p) (if c = "!" then None else Some (unhex c)) with
